@@ -298,6 +298,11 @@ void regType() {
   regAligned<SZ, AL, -1>(); regAligned<SZ, AL, 16>(); regAligned<SZ, AL, 64>();
   raws()[Key(K_DEBUG, SZ, AL, 0)] = []() -> RawIface* { return new DebugImpl<Elem<SZ, AL>>; };
 }
+template <size_t SZ, size_t AL>
+void regGiant() {
+  raws()[Key(K_MALLOC, SZ, AL, 0)] = []() -> RawIface* { return new MallocImpl<Elem<SZ, AL>>; };
+  regAligned<SZ, AL, -1>();
+}
 static void registerAll() {
   regType<1, 1>(); regType<2, 2>(); regType<3, 1>(); regType<4, 4>(); regType<5, 1>(); regType<6, 2>(); regType<7, 1>();
   regType<8, 8>(); regType<8, 4>(); regType<9, 1>(); regType<12, 4>(); regType<16, 16>(); regType<16, 8>();
@@ -309,6 +314,10 @@ static void registerAll() {
   regPool<24, 8, 4096>(); regPool<64, 64, 4096>(); regPool<12, 4, 4095>(); regPA<8, 8, 64>(); regPA<24, 8, 100>();
   // a few more requested alignments
   regAligned<4, 4, 8>(); regAligned<8, 8, 32>(); regAligned<24, 8, 128>(); regAligned<1, 1, 2>(); regAligned<3, 1, 4>();
+  // element types far larger than any object that is ever created (the type is only named): n * sizeof(T) wraps around
+  // for small n already, and the wrapped product can be an ordinary size (2^26 objects of 2^38+1 bytes = 2^64 + 64 MiB).
+  // Only the request validation of Malloc/AlignedAllocator sees them; every request with n >= 1 is unservable.
+  regGiant<(1ull << 38) + 1, 1>(); regGiant<(1ull << 44) + 64, 64>(); regGiant<(1ull << 33) + 8, 8>();
 }
 
 // ---------------------------------------------------------------------------------------------------------------
@@ -867,6 +876,14 @@ static std::string genRawOps(Rng& r, int kind, size_t sz, size_t page, long maxO
         unsigned long long cap = kind == K_DEBUG ? 3 * page : 4096;
         n = r.below(cap / sz + 2);
         if (r.coin(1, 3)) n = r.below(9);
+      }
+      // giant element types: already one object lies in the range where the OS decides; ask for nothing or for a count
+      // whose true size cannot be served (incl. the counts whose wrapped product is small)
+      if ((u128)n * sz > (1u << 26) && (u128)n * sz < ((u128)1 << 47)) {
+        std::vector<unsigned long long> g = {0, maxN + 1, maxN + 2, maxN, (1ull << 47) / sz + 1 + r.below(1000), 2 * (maxN + 1), 3 * (maxN + 1) + 1};
+        n = r.pick(g);
+        if (n && (u128)n * sz < ((u128)1 << 47)) n = maxN + 1;
+        dv::stat("gen_giant_type_request");
       }
       // r<n>: twice the bytes; keep clear of the range where the OS decides (64 MiB .. 2^47)
       const bool canRebind = (u128)n * sz * 2 <= (1u << 26) || (u128)n * sz >= ((u128)1 << 47);
